@@ -26,6 +26,7 @@
 #include "zstd_ddict.h"  /* ZSTD_DDictDictContent */
 #include "zstd_decompress_block.h"
 #include "../common/bits.h"  /* ZSTD_highbit32 */
+#include "../common/zstd_verif.h"  /* ZSTD_VERIF_EV (no-op unless ZSTD_VERIF_TRACE) */
 
 /*_*******************************************************
 *  Macros
@@ -2156,6 +2157,7 @@ ZSTD_decompressBlock_internal(ZSTD_DCtx* dctx,
         }
 
         dctx->ddictIsCold = 0;
+        ZSTD_VERIF_EV("dBlock", dctx, usePrefetchDecoder, dctx->litBufferLocation, nbSeq, dctx->litSize, totalHistorySize > (1u << 24), isLongOffset);
 
 #if !defined(ZSTD_FORCE_DECOMPRESS_SEQUENCES_SHORT) && \
     !defined(ZSTD_FORCE_DECOMPRESS_SEQUENCES_LONG)
